@@ -45,6 +45,8 @@ ArchiveRule(e) ==
   ELSE IF ReaderRule(e.rec, e.reader) # "ok" THEN ReaderRule(e.rec, e.reader)
   ELSE IF "info" \in DOMAIN e /\ e.info_exit # 0 THEN "C11 READER: bita info fails on the archive"
   ELSE IF "info" \in DOMAIN e /\ InfoRule(e.rec, e.info) # "ok" THEN InfoRule(e.rec, e.info)
+  ELSE IF "info_meta" \in DOMAIN e /\ (e.info_meta.exit # 0 \/ ~\E i \in 1..Len(e.rec.metadata) : e.rec.metadata[i].k = e.info_meta.k /\ e.rec.metadata[i].v = e.info_meta.v)
+       THEN "C11 READER: bita info --metadata-key does not print the recorded value of the key"
   ELSE IF e.rec.total # sc.src_len \/ e.rec.src_sum # sc.src_sum THEN "C01 DESCRIBES: recorded source size / checksum is not the source's"
   ELSE IF ~AllTrue(e.slice_ok) THEN "C01 DESCRIBES: a rebuild entry's chunk hash does not match the source slice it stands for"
   ELSE IF ~AllTrue(e.stored_ok) THEN "C01 DESCRIBES: a stored chunk does not decode to the chunk its descriptor names"
